@@ -187,7 +187,7 @@ func (s *Sim) genClientOp() (Decision, bool) {
 	// connect clients first (or late, interleaved)
 	if len(s.Clients) < p.NClients && (len(s.Clients) == 0 || s.chance(0.5)) {
 		name := fmt.Sprintf("k%d", len(s.Clients))
-		return Decision{K: "cli", A: name, P: `{"op":"connect"}`}, true
+		return s.connectDecision(name), true
 	}
 	var open []*Client
 	for _, c := range s.Clients {
@@ -198,7 +198,7 @@ func (s *Sim) genClientOp() (Decision, bool) {
 	if len(open) == 0 {
 		if len(s.Clients) < p.NClients {
 			name := fmt.Sprintf("k%d", len(s.Clients))
-			return Decision{K: "cli", A: name, P: `{"op":"connect"}`}, true
+			return s.connectDecision(name), true
 		}
 		return Decision{}, false
 	}
@@ -216,6 +216,17 @@ func (s *Sim) genClientOp() (Decision, bool) {
 		}
 	}
 	return s.genCoreClientOp(c)
+}
+
+// connectDecision: a WebSocket dial; with an Origin header where the profile
+// is about origins.
+func (s *Sim) connectDecision(name string) Decision {
+	if s.Cfg.Profile == "http" && s.chance(0.7) {
+		o := pickOne(s, []string{"http://example.org", "HTTP://EXAMPLE.ORG", "http://example.org.evil.com", "http://evil.org", "null",
+			"https://a.example.com:8443", "http://localhost:3000", "http://localhost:3001", "http://b.org", "http://c.org"})
+		return Decision{K: "cli", A: name, P: mustJSON(cliOp{Op: "connect", Origin: o})}
+	}
+	return Decision{K: "cli", A: name, P: `{"op":"connect"}`}
 }
 
 var clientGens = map[string]func(s *Sim, c *Client) (Decision, bool){}
